@@ -136,9 +136,14 @@ impl FileName {
             components.next();
         }
 
+        // A file of a module that is *not* below the module's `src` keeps an empty component in
+        // front (no real file or folder can be called that), otherwise `m/x.capy` and
+        // `m/src/x.capy` would both be `m::x`.
+        let outside_src = (is_mod && !has_src && num_components > 1).then_some(Cow::Borrowed(""));
+
         FileNameComponents {
             mod_name,
-            sub_parts: components,
+            sub_parts: outside_src.into_iter().chain(components),
         }
     }
 }
